@@ -243,9 +243,12 @@ def native_fault(ck, stage):
                 pass
             finally:
                 setattr(cls, attr, orig)
-        hdr = list(fits.open(out)[1].header.keys()) if os.path.exists(out) else []
+        # (every injection point lies after the geometry and spectrum stages, whose columns have been staged by then: the file exists)
+        present, neighbour = os.path.exists(out), os.path.exists(good)
+        hdr = list(fits.open(out)[1].header.keys()) if present else []
         extra = [k for k in hdr if k not in ref]
-        return {"violated": bool(extra), "input": {"stage made to raise": "%s.%s" % (cls.__name__, attr), "thrown_events": 200, "seed": ck.seed}, "observed": {"header cards not present in any failure-free stage file": extra[:5]}}
+        return {"violated": bool(extra) or not present or not neighbour, "input": {"stage made to raise": "%s.%s" % (cls.__name__, attr), "thrown_events": 200, "seed": ck.seed, "output file": "f.fits", "file of an earlier run in the same directory": "g.fits"},
+                "observed": {"header cards not present in any failure-free stage file": extra[:5], "output file still holds the staged prefix": present, "earlier run's file still there": neighbour}}
     except Exception as ex:
         return {"violated": None, "note": "native fault run failed: %r" % ex}
     finally:
